@@ -37,6 +37,9 @@ inductive Err where
   | units           -- Transaction.Units failed
   | chainid | misaligned | expired | future   -- Base.Execute
   | toomany | actionrange | authrange         -- PreExecute
+  | blockunits      -- chain.ErrInvalidUnitsConsumed (block limits)
+  | duplicate       -- chain.ErrDuplicateTx
+  | badauth         -- Auth.Verify failed
   deriving DecidableEq, Repr, Inhabited
 
 def Err.name : Err → String
@@ -46,7 +49,8 @@ def Err.name : Err → String
   | .valuezero => "valuezero" | .memo => "memo" | .units => "units"
   | .chainid => "chainid" | .misaligned => "misaligned" | .expired => "expired"
   | .future => "future" | .toomany => "toomany" | .actionrange => "actionrange"
-  | .authrange => "authrange"
+  | .authrange => "authrange" | .blockunits => "blockunits" | .duplicate => "duplicate"
+  | .badauth => "badauth"
 
 /-! ## `state.Permissions` -/
 def permRead : Nat := 1
@@ -405,14 +409,59 @@ def builderStep (r : Rules) (h : Handler) (prices : List Nat) (now : Int) (maxUn
     | none => (s, none)
   | _ => (s, none)
 
-/-- the builder's loop over the streamed transactions, in order -/
+/-- The one case in which the builder's closure returns an error instead of skipping:
+`PreExecute` passed but `Execute` returned an error ("unexpected post-execution error",
+builder.go: `restore = true; return err`). `executor.Wait` then returns that error and
+`BuildBlock` **returns it: the whole build is aborted, no block is produced**. -/
+def builderAbort (r : Rules) (h : Handler) (prices : List Nat) (now : Int)
+    (p : (Key → Nat) × Tx) (s : Block × List Nat) : Option Err :=
+  match processTx r h prices now p.1 p.2 s.1.visible with
+  | (_, .execErr e) => some e
+  | _ => none
+
+/-- the builder's loop over the streamed transactions, in order. `.error e` = `BuildBlock`
+returns the error `e` (build aborted). -/
 def builderBlock (r : Rules) (h : Handler) (prices : List Nat) (now : Int) (maxUnits : List Nat) :
-    List ((Key → Nat) × Tx) → Block × List Nat → (Block × List Nat) × List (Option Result)
-  | [], s => (s, [])
+    List ((Key → Nat) × Tx) → Block × List Nat →
+    Except Err ((Block × List Nat) × List (Option Result))
+  | [], s => .ok (s, [])
   | p :: rest, s =>
-    let st := builderStep r h prices now maxUnits p s
-    let out := builderBlock r h prices now maxUnits rest st.1
-    (out.1, st.2 :: out.2)
+    match builderAbort r h prices now p s with
+    | some e => .error e
+    | none =>
+      let st := builderStep r h prices now maxUnits p s
+      match builderBlock r h prices now maxUnits rest st.1 with
+      | .error e => .error e
+      | .ok out => .ok (out.1, st.2 :: out.2)
+
+/-- `Processor.executeTxs` for one transaction with the reason of a rejection: units consumed
+first (`ErrInvalidUnitsConsumed`), then `PreExecute` and `Execute`; any error makes the block
+invalid. -/
+def processorOutcome (r : Rules) (h : Handler) (prices : List Nat) (now : Int) (scope : Key → Nat)
+    (consumed maxUnits : List Nat) (tx : Tx) (cur : Store) : Except Err (Store × List Nat × Result) :=
+  match tx.units with
+  | none => .error .units
+  | some units =>
+    match consume consumed units maxUnits with
+    | none => .error .blockunits
+    | some c' =>
+      match processTx r h prices now scope tx cur with
+      | (cur', .done res) => .ok (cur', c', res)
+      | (_, .preErr e) => .error e
+      | (_, .execErr e) => .error e
+
+/-- `Processor.Execute` on a block: every transaction in order on the block-level layer; the
+first error rejects the block. -/
+def processorBlock (r : Rules) (h : Handler) (prices : List Nat) (now : Int) (maxUnits : List Nat) :
+    List ((Key → Nat) × Tx) → Block × List Nat → Except Err ((Block × List Nat) × List Result)
+  | [], s => .ok (s, [])
+  | p :: rest, s =>
+    match processorOutcome r h prices now p.1 s.2 maxUnits p.2 s.1.visible with
+    | .error e => .error e
+    | .ok (cur', c', res) =>
+      match processorBlock r h prices now maxUnits rest (s.1.commit cur', c') with
+      | .error e => .error e
+      | .ok out => .ok (out.1, res :: out.2)
 
 /-- `Processor.executeTxs`: units consumed first, then `PreExecute` and `Execute`; any error
 makes the block invalid. -/
@@ -428,6 +477,13 @@ def processorAccepts (r : Rules) (h : Handler) (prices : List Nat) (now : Int) (
 
 /-- `PreExecutor.PreExecute` (mempool admission): repeat check, state keys, auth, then
 `Transaction.PreExecute` at the next block's prices. -/
+def admitOutcome (r : Rules) (h : Handler) (prices : List Nat) (now : Int) (scope : Key → Nat)
+    (isRepeat authOk : Bool) (tx : Tx) (cur : Store) : Option Err :=
+  if isRepeat then some .duplicate
+  else if tx.units.isNone then some .units   -- (StateKeys invalid: same failure as Units)
+  else if !authOk then some .badauth
+  else preExecute r h prices tx { cur, scope } now
+
 def admits (r : Rules) (h : Handler) (prices : List Nat) (now : Int) (scope : Key → Nat)
     (isRepeat authOk : Bool) (tx : Tx) (cur : Store) : Bool :=
   !isRepeat && tx.units.isSome && authOk && (preExecute r h prices tx { cur, scope } now).isNone
